@@ -8,6 +8,19 @@
 // data directory, lets the real code open it (litefs.Store.Open -> DB.Open -> rollbackJournal +
 // CheckpointNoLock, in a child process with a 30 s deadline; litefs.WALReader in process) and
 // evaluates the property's clauses on what the real code left on disk.
+//
+// Monitors (R1: each is a clause of the property, evaluated on observations of the real code):
+//
+//	C17.rollback-restores-pre-transaction-bytes-and-size   protocol states, journal hot (exact)
+//	C17.finalised-journal-is-not-played-back               protocol states after finalisation (exact)
+//	C17.mutated-journal-playback-follows-sqlite-rules      mutated states: result = JournalPlayback
+//	C17.no-journal-left-after-reopen
+//	C17.valid-frames-are-the-longest-matching-prefix       WALReader's (page, commit) sequence
+//	C17.only-frames-up-to-the-last-commit-affect-the-database   image after the start-up checkpoint
+//	C17.no-panic  C17.no-hang (30 s per open)  C17.no-write-outside-the-database-pages
+//
+// The randomized part evaluates only the last three. Stages: journal states, "faithful" (files
+// written by LiteFS's own handlers under sim.Pager), WAL states, random bytes, relevance (thorough).
 package main
 
 import (
@@ -68,6 +81,17 @@ func norm(s string) string {
 		s = s[:120]
 	}
 	return s
+}
+
+// normCrash names the way a child process died. Every form of running into the child's
+// address-space limit (failed allocation, failed thread creation, failed mapping) is one class.
+func normCrash(s string) string {
+	for _, pat := range []string{"out of memory", "pthread_create failed", "cannot allocate memory", "failed to create new OS thread", "errno=12", "cannot map pages"} {
+		if strings.Contains(s, pat) {
+			return "address-space-exhausted"
+		}
+	}
+	return norm(s)
 }
 
 func eqInts(a, b []int) bool {
@@ -135,7 +159,6 @@ func stepViolations(res openRes, bound uint32) (pages, truncs []uint32) {
 
 func runJournal(p *pool, c jCase, hung *hungSet) (out caseOut) {
 	s, cfg := c.State, c.Cfg
-	sort.Ints(s.Plan.M)
 	rnd := rand.New(rand.NewSource(c.CaseSeed))
 	l := cfg.layout()
 	class := jClass(s)
@@ -197,7 +220,7 @@ func runJournal(p *pool, c jCase, hung *hungSet) (out caseOut) {
 		out.fails = append(out.fails, fail{"C17.no-hang", "hang/journal/" + class, detail(map[string]any{"no_answer_for": openDeadline.String()})})
 		return
 	case res.Crash != "":
-		out.fails = append(out.fails, fail{"C17.no-panic", "crash/journal/" + class + "/" + norm(res.Crash), detail(map[string]any{"child_died": res.Crash})})
+		out.fails = append(out.fails, fail{"C17.no-panic", "crash/journal/" + class + "/" + normCrash(res.Crash), detail(map[string]any{"child_died": res.Crash})})
 		return
 	case res.Panic != "":
 		out.fails = append(out.fails, fail{"C17.no-panic", "panic/journal/" + class + "/" + norm(res.Panic), detail(map[string]any{"panic": res.Panic, "stack": res.Stack})})
@@ -449,7 +472,7 @@ func runWAL(p *pool, c wCase, rep *core.Report) (out caseOut) {
 		out.fails = append(out.fails, fail{"C17.no-hang", "hang/wal/" + class, detail(map[string]any{"no_answer_for": openDeadline.String()})})
 		return
 	case res.Crash != "":
-		out.fails = append(out.fails, fail{"C17.no-panic", "crash/wal/" + class + "/" + norm(res.Crash), detail(map[string]any{"child_died": res.Crash})})
+		out.fails = append(out.fails, fail{"C17.no-panic", "crash/wal/" + class + "/" + normCrash(res.Crash), detail(map[string]any{"child_died": res.Crash})})
 		return
 	case res.Panic != "":
 		out.fails = append(out.fails, fail{"C17.no-panic", "panic/wal/" + class + "/" + norm(res.Panic), detail(map[string]any{"panic": res.Panic, "stack": res.Stack})})
@@ -607,14 +630,17 @@ func main() {
 	}
 	args := core.ParseArgs()
 	rep := core.NewReport("C17", "model_checking", args)
-	rep.Rule = "one implementation test per file state enumerated by TLC (journal: protocol states at every interruption point and their structural mutations; WAL: every header class x frame sequence within the bounds) x concretisation (page size, sector size, byte order); non-trivial = journal states whose playback must change the database or that are mutated, WALs with at least one frame; plus seeded random byte-level mutations and random byte strings"
+	rep.Rule = "TLC enumerates the abstract file-state space completely; one implementation test per file state enumerated by TLC (journal: protocol states at every interruption point and their structural mutations; WAL: every header class x frame sequence within the bounds) x concretisation (page size, sector size, byte order); non-trivial = journal states whose playback must change the database or that are mutated, WALs with at least one frame; plus seeded random byte-level mutations and random byte strings"
 	rep.Assumptions = []string{
 		"application death: completed writes survive in order (no torn or reordered sectors)",
 		"SQLite's protocol and validity rules are the transcription in spec/JournalWAL.tla (pager.c / wal.c 3.39)",
 		"pages are harness pages (sim.Layout L0); journal checksums sample every 200th byte as SQLite does",
 		"arbitrary-byte universality is not decided: structural classes enumerated by the spec plus seeded random bytes only",
 	}
-	rep.Exhaustive = true
+	// TLC enumerates the abstract file-state space completely (coverage.states) and every state gets
+	// at least one implementation test, but concretisations are sampled per state and the randomized
+	// part is sampling, so the run as a whole is not claimed to be exhaustive.
+	rep.Exhaustive = false
 	defer core.Cleanup()
 	core.Watchdog(150*time.Second, func(label string, since time.Duration) {
 		if strings.HasPrefix(label, "real:") {
@@ -663,7 +689,7 @@ func main() {
 	// ---- 3. random bytes ------------------------------------------------------------------------
 	waitProbes() // the randomized part must know which input classes hang
 	lap("wait_for_hang_probes")
-	nRandom := core.Pick(args, 2500, 40000)
+	nRandom := core.Pick(args, 12000, 150000)
 	if v := os.Getenv("VERIF_C17_RANDOM_N"); v != "" { // development aid: size of the randomized part
 		fmt.Sscan(v, &nRandom)
 	}
@@ -688,6 +714,10 @@ func (r *runner) finish() {
 	}
 	r.hung.mu.Unlock()
 	r.rep.Extra["counters"] = r.cnt
+	if n := len(r.pool.flukes); n > 0 {
+		r.rep.Extra["worker_deaths_not_reproduced"] = n
+		r.rep.Note("a child process died %d time(s) on an input on which a fresh child then succeeded (not an observation about litefs); first: %s", n, r.pool.flukes[0])
+	}
 	r.rep.Finish()
 }
 
@@ -728,7 +758,8 @@ func (r *runner) journalStage(states []*JState, cfgs []Cfg, allCfgs bool) (waitP
 	sampled := 0
 	parallel(len(rest), workersN(), func(i int) {
 		s := rest[i]
-		use := []Cfg{cfgs[(i+int(r.args.Seed))%len(cfgs)]}
+		// quick: two of the concretisations per state (rotating with the seed); thorough: all of them
+		use := []Cfg{cfgs[(i+int(r.args.Seed))%len(cfgs)], cfgs[(i+int(r.args.Seed)+len(cfgs)/2+1)%len(cfgs)]}
 		if allCfgs {
 			use = cfgs
 		}
@@ -744,7 +775,8 @@ func (r *runner) journalStage(states []*JState, cfgs []Cfg, allCfgs bool) (waitP
 				r.count("journal_tests_mutated/"+s.Mut.Kind, 1)
 			}
 			sampleMu.Lock()
-			if sampled < 2 && o.nontrivial && len(o.fails) == 0 && !o.skipped && i%977 == 5 {
+			if len(o.fails) == 0 && !o.skipped && !eqInts(s.Db, s.Exp) &&
+				((sampled == 0 && s.Stage != 3 && len(s.J.Segs) == 2 && s.J.Segs[1].Magic) || (sampled == 1 && s.Mut.Kind == "ckbad" && len(s.J.Segs) == 2)) {
 				sampled++
 				r.rep.Sample(map[string]any{"journal_state": s, "cfg": cfg.String(), "observed_after_reopen": o.observed, "litefs_steps": o.res.Steps})
 			}
@@ -809,6 +841,7 @@ func (r *runner) replay(path string) {
 		if err := json.Unmarshal(f.Replay, &c); err != nil {
 			core.Infra("parse replay: %v", err)
 		}
+		sort.Ints(c.State.Plan.M)
 		o = runJournal(r.pool, c, r.hung)
 		r.record(o, "replay", c)
 	case "wal":
@@ -829,6 +862,9 @@ func (r *runner) replay(path string) {
 		var c rCase
 		if err := json.Unmarshal(f.Replay, &c); err != nil {
 			core.Infra("parse replay: %v", err)
+		}
+		if c.JBase != nil {
+			sort.Ints(c.JBase.Plan.M)
 		}
 		o = runRandom(r.pool, c, r.hung)
 		r.record(o, "replay", c)
